@@ -108,7 +108,7 @@ def from_jsonable(x, tuples=True):
 # --------------------------------------------------------------------------- worker
 
 def _load_known(prop):
-    path = os.path.join(VERIF, 'findings', 'known_findings.json')
+    path = os.environ.get('VERIF_FINDINGS') or os.path.join(VERIF, 'findings', 'known_findings.json')
     try:
         with open(path) as f:
             data = json.load(f)
